@@ -51,6 +51,9 @@ func TestVerif(t *testing.T) {
 		verifAddresser(t, r, out)
 	case "C11":
 		verifC11(t, r, out)
+	case "C04":
+		verifSysctl(t, r, out)
+		verifSysctlConc(t, r, out)
 	default:
 		t.Fatalf("unknown VERIF_PROP %q for package system", prop)
 	}
@@ -106,6 +109,10 @@ type vAttempt struct{ pre, get, set, rst, task int }
 type vScript struct {
 	adv, ac0 bool
 	cancelAt int64 // ns of virtual time since Dial was called; < 0: never
+	// cancelIn > 0: the context is cancelled from inside DialFunc call number cancelIn-1 (not by a
+	// timer): the cancellation falls after the wait that preceded the call and before the call
+	// returns. The case line then carries the instant of that call as cancelAt; 0: not used.
+	cancelIn int
 	atts     []vAttempt
 }
 
@@ -304,6 +311,9 @@ type vRun struct {
 	waits  [][2]int64 // [begin, end) of every positive amount of time slept, ns since start
 	k      int        // DialFunc calls so far
 	cancel context.CancelFunc
+	// instant of the DialFunc call that cancelled the context (cancelIn), ns since start; -1: none
+	cancelT  int64
+	pendingX bool
 }
 
 // ev logs one event, preceded by the virtual time slept since the previous one.
@@ -412,8 +422,17 @@ func (h *vRun) dialFunc() (*DialContext, error) {
 		panic(vAbort{}) // Dial does not terminate
 	}
 	h.ev("d", int64(k))
+	inDial := h.sc.cancelIn > 0 && k == h.sc.cancelIn-1
+	if inDial {
+		h.cancelT = int64(time.Since(h.start))
+		h.cancel()
+	}
 	dctx, err := h.dialReplica(k, h.att(k))
 	h.ev("dr", int64(k), vClass(err))
+	// a failed call that cancelled the context: if init goes on to its next select, that select
+	// sees the cancellation at once and Dial returns nil — the "x" (select observed ctx.Done) is
+	// logged then (ret), not when there is no further select (last attempt, fatal error)
+	h.pendingX = inDial && err != nil
 	return dctx, err
 }
 
@@ -488,6 +507,9 @@ var vTagRE = regexp.MustCompile(`(dial|task|get|set|rst)#(\d+)`)
 // ret logs what Dial returned, by the origin of the error.
 func (h *vRun) ret(err error) {
 	if err == nil {
+		if h.pendingX {
+			h.ev("x")
+		}
 		h.ev("r", 0)
 		return
 	}
@@ -515,13 +537,14 @@ type vResult struct {
 	impl     string
 	consumed int
 	waits    [][2]int64
+	cancelT  int64
 }
 
 // vExec runs one script against a fresh Dialer inside a synctest bubble.
 func vExec(t *testing.T, src vSource, sc vScript) vResult {
 	var res vResult
 	synctest.Test(t, func(t *testing.T) {
-		h := &vRun{sc: sc, src: src, tr: new(vfh.Toks)}
+		h := &vRun{sc: sc, src: src, tr: new(vfh.Toks), cancelT: -1}
 		h.st = &vState{h: h, ac: sc.ac0}
 		mode := Monitor
 		if sc.adv {
@@ -567,6 +590,7 @@ func vExec(t *testing.T, src vSource, sc vScript) vResult {
 		}
 		res.consumed = h.k
 		res.waits = h.waits
+		res.cancelT = h.cancelT
 	})
 	return res
 }
@@ -619,7 +643,31 @@ func vTrim(sc vScript, consumed int) vScript {
 // are trimmed to the attempts the run consumed.  Returns the uncancelled result.
 func (v *vDriver) run(sc vScript, sample int) vResult {
 	sc.cancelAt = -1
+	sc.cancelIn = 0
 	res := v.emit(sc)
+	// a cancellation from inside every DialFunc call the run made (all of them, or `sample`): a
+	// successful call's task then notices the cancellation and returns. Not inside a first call
+	// that fails recoverably: the zero-length first wait of init would race the cancellation.
+	for k := 0; k < res.consumed && k < len(sc.atts)+1; k++ {
+		if sample > 0 && !v.r.Chance(sample, res.consumed+1) {
+			continue
+		}
+		c := sc
+		c.atts = append([]vAttempt(nil), sc.atts...)
+		for len(c.atts) <= k {
+			c.atts = append(c.atts, vAttempt{})
+		}
+		if c.atts[k].succeeds(sc.adv) {
+			c.atts[k].task = vtCancelled
+			if k%2 == 1 {
+				c.atts[k].task = vtCancelledErr
+			}
+		} else if k == 0 {
+			continue
+		}
+		c.cancelIn = k + 1
+		v.emit(c)
+	}
 	waits := res.waits
 	if sample > 0 && len(waits) > sample {
 		w2 := make([][2]int64, 0, sample)
@@ -647,6 +695,9 @@ func (v *vDriver) run(sc vScript, sample int) vResult {
 
 func (v *vDriver) emit(sc vScript) vResult {
 	res := vExec(v.t, v.src, sc)
+	if sc.cancelIn > 0 {
+		sc.cancelAt = res.cancelT
+	}
 	sc = vTrim(sc, res.consumed)
 	line := vCase(v.op, v.src, sc)
 	v.runs++
@@ -859,6 +910,7 @@ func verifC11(t *testing.T, r *vfh.Rand, out *vfh.Out) {
 	vRealDial(t, out)
 	vRealDialModes(t, out)
 	verifSysctl(t, r, out)
+	verifSysctlConc(t, r, out)
 	t.Logf("C11: %d runs, %d distinct cases", v.runs, len(v.seen))
 }
 
